@@ -159,13 +159,14 @@ class CoopRLock:
     def __init__(self):
         self.owner = None
         self.count = 0
+        self.sched = SCHED       # a lock outlives its run only as garbage: then it is a no-op
 
     def can_acquire(self, st):
         return self.owner is None or self.owner is st
 
     def acquire(self, blocking=True, timeout=-1):
         s = SCHED
-        st = s.me() if s is not None else None
+        st = s.me() if (s is not None and s is self.sched) else None
         if st is None:
             # unscheduled (main) thread: plain semantics
             # (set-up / tear-down code, e.g. __del__ of a port; never blocks)
@@ -180,7 +181,7 @@ class CoopRLock:
 
     def release(self):
         s = SCHED
-        st = s.me() if s is not None else None
+        st = s.me() if (s is not None and s is self.sched) else None
         if st is None:
             return
         s.announce('rel', self)
@@ -252,6 +253,7 @@ class CoopEvent:
 
     def __init__(self):
         self.flag = False
+        self.sched = SCHED
 
     def is_set(self):
         return self.flag
@@ -259,11 +261,13 @@ class CoopEvent:
     isSet = is_set
 
     def set(self):
-        _announce('evset', self)
+        if SCHED is self.sched:
+            _announce('evset', self)
         self.flag = True
 
     def clear(self):
-        _announce('evclear', self)
+        if SCHED is self.sched:
+            _announce('evclear', self)
         self.flag = False
 
     def can_acquire(self, st):           # (the scheduler's "is this pending access possible" hook)
@@ -271,7 +275,7 @@ class CoopEvent:
 
     def wait(self, timeout=None):
         s = SCHED
-        st = s.me() if s is not None else None
+        st = s.me() if (s is not None and s is self.sched) else None
         if st is None:
             return self.flag
         if timeout is not None:
